@@ -34,6 +34,35 @@ example : ∃ p q : ℝ, disc p q < 0 ∧ asinArgRaw p q ≠ 0 :=
     have : (0 : ℝ) < √(- -3) := Real.sqrt_pos.mpr (by norm_num)
     positivity⟩
 
+/-! ## `calc_cubic_root` on arrays: the boolean-mask bookkeeping is position-wise -/
+
+/-- The code works on whole arrays: `mask = det >= 0`, the Cardano values are computed from `q[mask]`,
+    `det[mask]` and written to `sol[mask]`, the trigonometric ones from `p[~mask]`, `q[~mask]` and written to
+    `sol[~mask]`. For arrays of ANY length and any pattern of branches, the result holds at every position the
+    scalar `calcCubicRoot` of that position's coefficients — no value lands in another row. Over `ℝ`: -/
+theorem cubic_vec_pointwise (l : List (ℝ × ℝ × ℝ)) (k : ℕ) :
+    calcCubicRootVec (l.map (·.1)) (l.map (·.2.1)) (l.map (·.2.2)) k
+      = l.map fun t => calcCubicRoot t.1 t.2.1 t.2.2 k :=
+  calcCubicRootVec_pointwise (fun det A B => by
+    simp only [selGe0_real, RealLike.le]
+    norm_num) l k
+
+/-- …and for the very `Float` instance the driver executes and the harness compares with NumPy
+    (a statement about the bookkeeping only; no property of floating-point arithmetic is used). -/
+theorem cubic_vec_pointwise_float (l : List (Float × Float × Float)) (k : ℕ) :
+    calcCubicRootVec (l.map (·.1)) (l.map (·.2.1)) (l.map (·.2.2)) k
+      = l.map fun t => calcCubicRoot t.1 t.2.1 t.2.2 k :=
+  calcCubicRootVec_pointwise (fun _ _ _ => rfl) l k
+
+/-- hence every entry of the array result is a root of its own cubic -/
+theorem cubic_vec_roots (l : List (ℝ × ℝ × ℝ)) (k : ℕ) :
+    List.Forall₂ (fun (t : ℝ × ℝ × ℝ) y => y ^ 3 + t.1 * y ^ 2 + t.2.1 * y + t.2.2 = 0) l
+      (calcCubicRootVec (l.map (·.1)) (l.map (·.2.1)) (l.map (·.2.2)) k) := by
+  rw [cubic_vec_pointwise]
+  induction l with
+  | nil => exact List.Forall₂.nil
+  | cons t ts ih => exact List.Forall₂.cons (calcCubicRoot_is_root t.1 t.2.1 t.2.2 k) ih
+
 /-! ## the model equations and the cubics the code solves have the same solutions -/
 
 /-- Odijk. For a positive force and positive parameters, `d` is the Odijk extension of `F` iff `F`
